@@ -406,6 +406,8 @@ def _main_check(ctx: Ctx) -> None:
         ctx.check(ok0, "DEFAULT", f"{FN}: the default signature (at tick 0) is installed iff the meta track has no time signature", function=FN,
                   construct="default signature entry is installed under another condition or not at tick 0", message=short(t), file=fi.file, node=dl[0])
 
+    from ..engines.structure import times_of_type_rule
+    ctx.floor("signature look-up helper obligations", times_of_type_rule(ctx), 4)
     # --- SHORTEN
     from .c06 import filter_rules        # "fragments may only shrink" rests on the do_not_extend filter of quantise_note_lengths
     filter_rules(ctx)
